@@ -8,7 +8,7 @@
      auth.authenticator.AuthenticateJoin's mapping of the session server's answer (auth/authenticator.go).
    RSA (Verify, DecryptSharedSecret), the key signature checks and aes.NewCipher are boolean inputs
    carried by the operations; the session server is an input outcome. *)
-From Coq Require Import List Bool.
+From Coq Require Import List Bool Arith.
 Import ListNotations.
 
 (* result of the PreLoginEvent handlers *)
@@ -33,7 +33,9 @@ Record cfg := mkCfg {
   has_ack : bool;       (* protocol >= 1.20.2: LoginAcknowledged exists, login success is awaited *)
   key_window : bool;    (* 1.19 <= protocol < 1.19.3: login start may carry a player key *)
   force_key : bool;     (* config.ForceKeyAuthentication *)
-  outcome : session
+  outcome : session;
+  pre_msgs : nat        (* login plugin messages a PreLogin subscriber sends through the event's
+                           connection (LoginPhaseConnection.SendLoginPluginMessage); ids 1..n *)
 }.
 
 (* the player key carried by login start *)
@@ -45,7 +47,7 @@ Inductive op :=
     (* token_ok: the token decrypts to the issued one (no key) / the signature over token and salt
        verifies and a salt is present (key); secret_ok: the shared secret decrypts;
        keylen_ok: the decrypted secret is a valid AES key *)
-| PluginResp      (* LoginPluginResponse with an id the proxy never used *)
+| PluginResp (id : nat)  (* LoginPluginResponse carrying this message id (outstanding or not) *)
 | LoginAck
 | Unknown.        (* packet id without a registration in the login state, or an undecodable body *)
 
@@ -56,6 +58,7 @@ Inductive out :=
 | OEncEnabled           (* conn.EnableEncryption (decrypted secret) succeeded                  *)
 | OJoin                 (* AuthenticateJoin (serverId (secret, key), username) was called      *)
 | OSetCompression
+| OPluginMsg (id : nat) (* LoginPluginMessage written (queued by a PreLogin subscriber)          *)
 | ORegister             (* registrar.registerConnection returned true: player is findable      *)
 | OSuccess (u : uuid_src)  (* ServerLoginSuccess written; which identity it announces          *)
 | ODisconnect           (* Disconnect packet in the login state                                *)
@@ -67,7 +70,10 @@ Inductive out :=
 Inductive istate := LoginExpected | LoginReceived | EncRequestSent | EncResponseReceived.
 
 Inductive phase :=
-| PInit (s : istate) (key : keyst)   (* initialLoginSessionHandler is active; key = inbound.playerKey *)
+| PInit (s : istate) (key : keyst) (outst : list nat)
+    (* initialLoginSessionHandler is active; key = inbound.playerKey; outst = the ids in
+       loginInboundConn.outstandingResponses. (LoginReceived, outst <> []) is the state in which the
+       continuation of handleServerLogin waits for the client's answers (onAllMessagesHandled). *)
 | PAuthWait                          (* authSessionHandler active, loginState = successSent (1.20.2+) *)
 | PClosed.                           (* connection closed (or handed over and closed)              *)
 
@@ -85,7 +91,18 @@ Definition activate (c : cfg) (u : uuid_src) : phase * list out :=
   if has_ack c then (PAuthWait, pre_)
   else (PClosed, pre_ ++ [OPost; OClose]).   (* play state; connectToInitialServer: no server -> kick *)
 
-(* handleServerLogin after assertState succeeded *)
+(* the continuation handed to loginInboundConn.loginEventFired: runs at once when nothing was queued,
+   otherwise when the last outstanding message has been answered *)
+Definition proceed (c : cfg) (k : keyst) : phase * list out :=
+  if effective_online c then
+    if provider c then activate c UProvider
+    else (PInit EncRequestSent k [], [OEncRequest])
+  else activate c UOffline.
+
+(* SendLoginPluginMessage refuses clients older than 1.13 *)
+Definition queued_msgs (c : cfg) : list nat := if has_plugin c then seq 1 (pre_msgs c) else [].
+
+(* handleServerLogin after assertState succeeded (currentState is already loginPacketReceived) *)
 Definition handle_login (c : cfg) (name_valid : bool) (k : keyst) : phase * list out :=
   let bye := (PClosed, [ODisconnect; OClose]) in
   if negb name_valid then bye else
@@ -96,12 +113,22 @@ Definition handle_login (c : cfg) (name_valid : bool) (k : keyst) : phase * list
     match pre c with
     | PDeny => bye
     | _ =>
-      if effective_online c then
-        if provider c then activate c UProvider
-        else (PInit EncRequestSent k, [OEncRequest])
-      else activate c UOffline
+      match queued_msgs c with
+      | [] => proceed c k
+      | _ :: _ => (PInit LoginReceived k (queued_msgs c), map OPluginMsg (queued_msgs c))   (* wait for the answers *)
+      end
     end
   end.
+
+(* loginInboundConn.handleLoginPluginResponse *)
+Definition remove_id (id : nat) (l : list nat) : list nat := filter (fun j => negb (Nat.eqb j id)) l.
+Definition handle_plugin (c : cfg) (s : istate) (k : keyst) (outst : list nat) (id : nat) : phase * list out :=
+  if existsb (Nat.eqb id) outst then
+    match remove_id id outst, s with
+    | [], LoginReceived => proceed c k            (* last answer: onAllMessagesHandled runs, once *)
+    | rest, _ => (PInit s k rest, [])
+    end
+  else (PInit s k outst, []).                      (* unknown id: ignored *)
 
 (* handleEncryptionResponse after assertState succeeded *)
 Definition handle_enc (c : cfg) (token_ok secret_ok keylen_ok : bool) : phase * list out :=
@@ -116,7 +143,7 @@ Definition handle_enc (c : cfg) (token_ok secret_ok keylen_ok : bool) : phase * 
 Definition step (c : cfg) (p : phase) (o : op) : phase * list out :=
   match p with
   | PClosed => (PClosed, [])
-  | PInit s k =>
+  | PInit s k outst =>
       match o with
       | LoginStart nv key =>
           match s with
@@ -128,19 +155,19 @@ Definition step (c : cfg) (p : phase) (o : op) : phase * list out :=
           | EncRequestSent => handle_enc c t se kl
           | _ => (PClosed, [OClose])                       (* assertState *)
           end
-      | PluginResp => if has_plugin c then (p, []) else (PClosed, [OClose])
+      | PluginResp id => if has_plugin c then handle_plugin c s k outst id else (PClosed, [OClose])
       | LoginAck => (PClosed, [OClose])
       | Unknown => (PClosed, [OClose])
       end
   | PAuthWait =>
       match o with
       | LoginAck => (PClosed, [OPost; OClose])            (* config state; no server -> kick *)
-      | PluginResp => if has_plugin c then (PAuthWait, []) else (PClosed, [OClose])
+      | PluginResp _ => if has_plugin c then (PAuthWait, []) else (PClosed, [OClose])
       | _ => (PClosed, [OClose])
       end
   end.
 
-Definition init : phase := PInit LoginExpected KNone.
+Definition init : phase := PInit LoginExpected KNone [].
 
 Fixpoint run_from (c : cfg) (p : phase) (ops : list op) : phase * list (list out) :=
   match ops with
@@ -160,6 +187,7 @@ Definition out_eqb (a b : out) : bool :=
   | OEncRequest, OEncRequest | OEncEnabled, OEncEnabled | OJoin, OJoin
   | OSetCompression, OSetCompression | ORegister, ORegister | ODisconnect, ODisconnect
   | OPost, OPost | OOther, OOther | OClose, OClose => true
+  | OPluginMsg i, OPluginMsg j => Nat.eqb i j
   | OSuccess u, OSuccess v =>
       match u, v with UOffline, UOffline | USession, USession | UProvider, UProvider => true | _, _ => false end
   | _, _ => false
@@ -188,15 +216,16 @@ Definition good_login (c : cfg) (o : op) : bool :=
       end && (match pre c with PDeny => false | _ => true end)
   | _ => false
   end.
+Definition is_plugin_resp (o : op) : bool := match o with PluginResp _ => true | _ => false end.
 Definition good_enc (o : op) : bool :=
   match o with EncResp true true true => true | _ => false end.
 
 (* is o the packet the protocol expects next in phase p?  (plugin responses are never "out of order") *)
 Definition in_order (c : cfg) (p : phase) (o : op) : bool :=
   match o with
-  | PluginResp => has_plugin c
+  | PluginResp _ => has_plugin c
   | Unknown => false
-  | LoginStart _ _ => match p with PInit LoginExpected _ => true | _ => false end
-  | EncResp _ _ _ => match p with PInit EncRequestSent _ => true | _ => false end
+  | LoginStart _ _ => match p with PInit LoginExpected _ _ => true | _ => false end
+  | EncResp _ _ _ => match p with PInit EncRequestSent _ _ => true | _ => false end
   | LoginAck => match p with PAuthWait => true | _ => false end
   end.
